@@ -84,4 +84,40 @@ theorem other_ah_noop (m : Machine) (ah : BitVec 8) (stdin : List String)
     int21 m ah stdin = (m, "", stdin) ∧ int10 m ah = "" := by
   simp [int21, int10, h1, h2, h3, h4]
 
+/-! ### the run loop around the services -/
+
+/-- **INT 21h with an unsupported AH is reported and stops the program**: the run ends there with the
+    machine as it is, the rest of the program (`k`) is not run — for every AH other than 1, 2, 0Ah -/
+theorem int21_unsupported_stops (p : Prog) (k : Cont) (idx : Nat) (m m' : Machine) (ctx ctx' : Ctx) (stdin : List String)
+    (out : String) (tr : List Nat) (i : Instr) (ln : Nat) (text : String)
+    (hp : parseLine (p.code[idx]?.getD "") = some i) (he : exec idx m ctx i = .ok (.INT 0x21#8, m', ctx'))
+    (hi : lineInfo p idx = some (ln, text))
+    (h1 : m'.getByteReg .AH ≠ 0x01#8) (h2 : m'.getByteReg .AH ≠ 0x02#8) (h3 : m'.getByteReg .AH ≠ 0x0A#8) :
+    stepBody p k idx m ctx stdin out tr =
+      { stdout := out ++ s!"Error at line {ln} : {text}, value of AH = {(m'.getByteReg .AH).toNat} is not supported for int 0x10\nExiting\n",
+        exit := 0, trace := (idx :: tr).reverse, final := some m' } := by
+  simp [stepBody, hp, he, hi, h1, h2, h3]
+
+/-- the same for INT 10h and every AH other than 0Ah, 13h -/
+theorem int10_unsupported_stops (p : Prog) (k : Cont) (idx : Nat) (m m' : Machine) (ctx ctx' : Ctx) (stdin : List String)
+    (out : String) (tr : List Nat) (i : Instr) (ln : Nat) (text : String)
+    (hp : parseLine (p.code[idx]?.getD "") = some i) (he : exec idx m ctx i = .ok (.INT 0x10#8, m', ctx'))
+    (hi : lineInfo p idx = some (ln, text))
+    (h1 : m'.getByteReg .AH ≠ 0x0A#8) (h2 : m'.getByteReg .AH ≠ 0x13#8) :
+    stepBody p k idx m ctx stdin out tr =
+      { stdout := out ++ s!"Error at line {ln} : {text}, value of AH = {(m'.getByteReg .AH).toNat} is not supported for int 0x10\nExiting\n",
+        exit := 0, trace := (idx :: tr).reverse, final := some m' } := by
+  simp [stepBody, hp, he, hi, h1, h2]
+
+/-- a supported service continues with the next instruction, the machine the service returns and
+    the input it left -/
+theorem int21_supported_continues (p : Prog) (k : Cont) (idx : Nat) (m m' : Machine) (ctx ctx' : Ctx) (stdin : List String)
+    (out : String) (tr : List Nat) (i : Instr)
+    (hp : parseLine (p.code[idx]?.getD "") = some i) (he : exec idx m ctx i = .ok (.INT 0x21#8, m', ctx'))
+    (hah : m'.getByteReg .AH = 0x01#8 ∨ m'.getByteReg .AH = 0x02#8 ∨ m'.getByteReg .AH = 0x0A#8) :
+    stepBody p k idx m ctx stdin out tr =
+      k (idx + 1) (int21 m' (m'.getByteReg .AH) stdin).1 ctx' (int21 m' (m'.getByteReg .AH) stdin).2.2
+        (out ++ (int21 m' (m'.getByteReg .AH) stdin).2.1) (idx :: tr) := by
+  rcases hah with h | h | h <;> simp [stepBody, hp, he, h]
+
 end Emu8086.Props.C18
